@@ -60,6 +60,51 @@ def strip_keys(d, keys):
 CTX_TRACKED = ('ContextAssociation', 'BindingMdibVersion', 'UnbindingMdibVersion', 'BindingStartTime', 'BindingEndTime')
 
 
+def enrich(mdib):
+    """Descriptor classes of the data model that none of the repository's test MDIBs contains get one instance each (with its
+    state), added to the tables directly as when an MDIB is assembled: Battery, DistributionSampleArrayMetric, the four
+    remaining context descriptors, SetMetricState- / SetComponentStateOperation. The generators then meet every
+    descriptor / state class pairing."""
+    from sdc11073.xml_types import pm_qnames as q
+    from sdc11073.xml_types import pm_types
+    have = {type(d) for d in mdib.descriptions.objects}
+
+    def first(qn):
+        found = mdib.descriptions.NODETYPE.get(qn)
+        return found[0] if found else None
+    metric = next((d.Handle for d in mdib.descriptions.objects if d.is_metric_descriptor), None)
+    plan = [(q.BatteryDescriptor, q.MdsDescriptor), (q.DistributionSampleArrayMetricDescriptor, q.ChannelDescriptor),
+            (q.EnsembleContextDescriptor, q.SystemContextDescriptor), (q.MeansContextDescriptor, q.SystemContextDescriptor),
+            (q.OperatorContextDescriptor, q.SystemContextDescriptor), (q.WorkflowContextDescriptor, q.SystemContextDescriptor),
+            (q.SetMetricStateOperationDescriptor, q.ScoDescriptor), (q.SetComponentStateOperationDescriptor, q.ScoDescriptor)]
+    added = []
+    for i, (qn, parent_qn) in enumerate(plan):
+        cls = mdib.data_model.get_descriptor_container_class(qn)
+        parent = first(parent_qn)
+        if cls in have or parent is None:
+            continue
+        d = cls(f'enriched_{qn.localname}', parent.Handle)
+        d.set_source_mds(parent.source_mds if parent.source_mds is not None else parent.Handle)
+        if not d.is_context_descriptor:
+            d.Type = pm_types.CodedValue(str(87000 + i))
+        if d.is_metric_descriptor:
+            d.Unit = pm_types.CodedValue('262656')
+            d.DomainUnit = pm_types.CodedValue('262657')
+            d.DistributionRange = pm_types.Range(Decimal(0), Decimal(100))
+            d.Resolution = Decimal('0.1')
+            d.MetricCategory = pm_types.MetricCategory.MEASUREMENT
+            d.MetricAvailability = pm_types.MetricAvailability.CONTINUOUS
+        if d.is_operational_descriptor:
+            if metric is None:
+                continue
+            d.OperationTarget = metric if qn == q.SetMetricStateOperationDescriptor else parent.parent_handle
+        mdib.descriptions.add_object(d)
+        if not d.is_context_descriptor:
+            mdib.states.add_object(mdib.data_model.mk_state_container(d))
+        added.append(d.Handle)
+    return added
+
+
 class World:
     def __init__(self, provider: lb.Provider, rng):
         self.p = provider
@@ -81,6 +126,7 @@ class World:
         self.late_writes = False  # C03: after the `with` block write into everything that was handed out
         self.scribble_results = True
         self.retained = []        # C03: (label, object, canonical value when it was published)
+        self.enriched = enrich(self.mdib)
 
     def close(self):
         import time
@@ -244,8 +290,17 @@ class World:
         """choose from pool, preferring recently touched handles"""
         r = self.rng
         hot = [h for h in self.hot if h in pool]
-        if hot and r.random() < 0.45:
+        z = r.random()
+        if hot and z < 0.45:
             h = r.choice(hot)
+        elif z < 0.7:
+            # class-balanced: first a descriptor class that occurs in the pool, then one of its instances (a class with a
+            # single instance among dozens of numeric metrics is met as often as any other)
+            by_cls = {}
+            for x in pool:
+                d = self.mdib.descriptions.handle.get_one(x, allow_none=True)
+                by_cls.setdefault(type(d).__name__, []).append(x)
+            h = r.choice(by_cls[r.choice(sorted(by_cls))])
         else:
             h = r.choice(pool)
         if h in self.hot:
@@ -298,6 +353,40 @@ class World:
                 self.stale_entities[h] = type(ent)(m, copy.deepcopy(ent.descriptor), copy.deepcopy(ent.state))
 
     # ---------------- script generation (type/state directed, 80 % enabled ops)
+    def class_sweep_scripts(self):
+        """Directed history: one instance of every descriptor class of this MDIB goes through every route of the transaction API
+        (state transaction get / write_entity, descriptor transaction get+get_state / write_entity, and for leaves remove,
+        re-create with the same handle, write_entity again). The random histories meet rare classes too seldom."""
+        m = self.mdib
+        r = self.rng
+        by_cls = {}
+        for d in sorted(m.descriptions.objects, key=lambda d: d.Handle):
+            if d.parent_handle is None:
+                continue
+            leaf = not m.descriptions.parent_handle.get(d.Handle)
+            cur = by_cls.get(type(d).__name__)
+            if cur is None or (leaf and not cur[1]):
+                by_cls[type(d).__name__] = (d.Handle, leaf, d.is_context_descriptor)
+        out = []
+
+        def sc(tx, calls, **kw):
+            out.append({'tx': tx, 'catch': False, 'raise': False, 'calls': calls, **kw})
+        for _name, (h, leaf, is_ctx) in sorted(by_cls.items()):
+            n = r.randrange(1000)
+            st = m.states.descriptor_handle.get_one(h, allow_none=True)
+            if st is not None:
+                sc('S', [['get', h], ['setBody', h, n]], kind=kind_of(st))
+                sc('S', [['write', h, n + 1, False]], kind=kind_of(st))
+            sc('D', [['getDescr', h], ['setDescrBody', h, n + 2]] + ([] if is_ctx else [['getState', h], ['setStateBody', h, n + 3]]))
+            sc('D', [['writeEntity', h, n + 4, 'add' if is_ctx else 'keep', False]], remember=[h])
+            if leaf:
+                sc('D', [['removeDescr', h]])
+                sc('D', [['addDescr', h, None, True]])
+                sc('D', [['writeEntity', h, n + 5, 'keep', False]])
+                if st is not None:
+                    sc('S', [['write', h, n + 6, True]], kind=kind_of(st))     # the entity fetched before the re-creation
+        return out
+
     def gen_script(self):
         r = self.rng
         remember = self.pick_remember() if r.random() < 0.4 else []
@@ -349,9 +438,15 @@ class World:
             cds = self.descr_handles(lambda d: d.is_context_descriptor)
             chs = sorted(c.Handle for c in self.mdib.context_states.objects)
             got = []
+            alld = set(self.descr_handles())
+            orphaned = sorted(h for h, e in self.stale_entities.items() if e.is_multi_state and h not in alld)
             for _ in range(r.choice([0, 1, 1, 2, 3, 4])):
                 z = r.random()
-                if z < 0.3 and cds:
+                if orphaned and r.random() < 0.2:
+                    # entity interface with an entity fetched before its descriptor was removed: a new state for it
+                    script['calls'].append(['writeNew', r.choice(orphaned), f'as{self.new_n}', r.randrange(1000)])
+                    self.new_n += 1
+                elif z < 0.3 and cds:
                     dh = r.choice(cds) if r.random() < 0.9 else r.choice(self.descr_handles())
                     explicit = r.random() < 0.5
                     gone = sorted(x for x in self.mdib.context_states.handle_version_lookup if x not in chs)
@@ -436,7 +531,11 @@ class World:
             elif z < 0.34 and leafish:
                 # remove a descriptor that has several states (context descriptor with >= 2 context states), or its parent
                 multi = [d for d in leafish if len(self.mdib.context_states.descriptor_handle.get(d, [])) >= 2]
-                if multi:
+                held = [d for d in leafish if d in self.stale_entities and self.stale_entities[d].is_multi_state]
+                if held and r.random() < 0.5:
+                    # ... or one an application still holds an entity of (it may write that entity later)
+                    script['calls'].append(['removeDescr', r.choice(held)])
+                elif multi:
                     script['calls'].append(['removeDescr', self.pick(multi)])
                 else:
                     script['calls'].append(['removeDescr', self.pick(leafish)])
@@ -768,6 +867,18 @@ class World:
                 # entity interface: a new context state (fresh handle, or the handle of a state of ANOTHER descriptor)
                 _, dh, h, n = call
                 d = m.descriptions.handle.get_one(dh, allow_none=True)
+                held = self.stale_entities.get(dh)
+                if d is None and held is not None and held.is_multi_state:
+                    # the descriptor has been removed since the application fetched the entity: the mdib has no such descriptor
+                    # any more, the call has to be refused (model: `mk` for an unknown descriptor)
+                    ent = type(held)(m, copy.deepcopy(held.descriptor), copy.deepcopy(list(held.states.values())))
+                    if h in ent.states:
+                        return
+                    st = ent.new_state(h)
+                    self.mutate_state(st, n)
+                    self.emit(f'mk {H(dh)} {H(h)} 1 0 {self.sbody(st)} {int(self.clock.t)}', 'ok')
+                    mgr.write_entity(ent, [h])
+                    return
                 if d is None or not d.is_context_descriptor:
                     return
                 old = m.context_states.handle.get_one(h, allow_none=True)
